@@ -39,7 +39,7 @@ func main() {
 	}
 	overlay := map[string]string{}
 	type site struct{ Pos, Kind string }
-	var sites, skipped []site
+	var sites, skipped, clockSites []site
 	os.MkdirAll(out, 0o755)
 	n := 0
 	for _, pkg := range pkgs {
@@ -61,13 +61,38 @@ func main() {
 			imports[p.Path()] = a
 			return a
 		}
+		needClock := false
 		for i, file := range pkg.Syntax {
 			fname := pkg.CompiledGoFiles[i]
 			if strings.HasSuffix(fname, "_test.go") || strings.HasSuffix(fname, ".pb.go") || strings.HasSuffix(fname, ".pb.gw.go") || !strings.HasPrefix(fname, repo) {
 				continue
 			}
 			changed := false
+			timeAlias := ""
 			ast.Inspect(file, func(node ast.Node) bool {
+				// wall clock: time.Now() -> verifNow(), time.Since(x) -> verifNow().Sub(x)
+				if call, ok := node.(*ast.CallExpr); ok {
+					if sel, ok := call.Fun.(*ast.SelectorExpr); ok {
+						if fn, ok := pkg.TypesInfo.Uses[sel.Sel].(*types.Func); ok && fn.Pkg() != nil && fn.Pkg().Path() == "time" {
+							pos := pkg.Fset.Position(call.Pos())
+							rel, _ := filepath.Rel(repo, pos.Filename)
+							if id, ok := sel.X.(*ast.Ident); ok && (fn.Name() == "Now" || fn.Name() == "Since") {
+								timeAlias = id.Name
+							}
+							switch {
+							case fn.Name() == "Now" && len(call.Args) == 0:
+								call.Fun = ast.NewIdent("verifNow")
+								clockSites = append(clockSites, site{fmt.Sprintf("%s:%d", rel, pos.Line), "time.Now"})
+								changed, needClock = true, true
+							case fn.Name() == "Since" && len(call.Args) == 1:
+								call.Fun = &ast.SelectorExpr{X: &ast.CallExpr{Fun: ast.NewIdent("verifNow")}, Sel: ast.NewIdent("Sub")}
+								clockSites = append(clockSites, site{fmt.Sprintf("%s:%d", rel, pos.Line), "time.Since"})
+								changed, needClock = true, true
+							}
+						}
+					}
+					return true
+				}
 				rs, ok := node.(*ast.RangeStmt)
 				if !ok {
 					return true
@@ -122,14 +147,17 @@ func main() {
 					fmt.Println("format:", err)
 					os.Exit(2)
 				}
+				if timeAlias != "" {
+					fmt.Fprintf(&buf, "\nvar _ %s.Duration // keeps the import used after the clock rewrite\n", timeAlias)
+				}
 				dst := filepath.Join(out, fmt.Sprintf("f%d_%s", len(overlay), filepath.Base(fname)))
 				os.WriteFile(dst, buf.Bytes(), 0o644)
 				overlay[fname] = dst
 			}
 		}
-		if len(helpers) > 0 {
+		if len(helpers) > 0 || needClock {
 			var b strings.Builder
-			fmt.Fprintf(&b, "package %s\n\nimport (\n\t\"fmt\"\n\t\"os\"\n\t\"sort\"\n", pkg.Name)
+			fmt.Fprintf(&b, "package %s\n\nimport (\n\t\"fmt\"\n\t\"os\"\n\t\"sort\"\n\tveriftime \"time\"\n", pkg.Name)
 			var paths []string
 			for p := range imports {
 				paths = append(paths, p)
@@ -139,6 +167,7 @@ func main() {
 				fmt.Fprintf(&b, "\t%s %q\n", imports[p], p)
 			}
 			b.WriteString(")\n\nvar _ = fmt.Sprint\nvar _ = os.Getenv\nvar _ = sort.Strings\n")
+			b.WriteString(clockTmpl)
 			for _, h := range helperSrc {
 				b.WriteString(h)
 			}
@@ -150,9 +179,9 @@ func main() {
 	}
 	bz, _ := json.MarshalIndent(map[string]interface{}{"Replace": overlay}, "", " ")
 	os.WriteFile(filepath.Join(out, "overlay.json"), bz, 0o644)
-	rep, _ := json.MarshalIndent(map[string]interface{}{"rewritten": sites, "not_controlled": skipped}, "", " ")
+	rep, _ := json.MarshalIndent(map[string]interface{}{"rewritten": sites, "not_controlled": skipped, "clock": clockSites}, "", " ")
 	os.WriteFile(filepath.Join(out, "sites.json"), rep, 0o644)
-	fmt.Printf("maporder: %d map ranges rewritten, %d not controlled, %d files in overlay\n", len(sites), len(skipped), len(overlay))
+	fmt.Printf("maporder: %d map ranges rewritten, %d not controlled, %d wall-clock reads rewritten, %d files in overlay\n", len(sites), len(skipped), len(clockSites), len(overlay))
 }
 
 func pure(e ast.Expr) bool {
@@ -172,6 +201,19 @@ func pure(e ast.Expr) bool {
 	}
 	return false
 }
+
+const clockTmpl = `
+// verifNow is the wall clock as the explorer chooses it (VERIF_CLOCK: unset = real, past = 1970, future = +30 years).
+func verifNow() veriftime.Time {
+	switch os.Getenv("VERIF_CLOCK") {
+	case "past":
+		return veriftime.Unix(1000000, 0)
+	case "future":
+		return veriftime.Now().AddDate(30, 0, 0)
+	}
+	return veriftime.Now()
+}
+`
 
 const helperTmpl = `
 func verifMapKeys%d(m map[%s]%s) []%s {
